@@ -42,7 +42,8 @@ def gen_case(rng, tier, i):
         elif r < 0.70:
             ops.append(["b"])
         elif r < 0.76:
-            ops.append(["seed", rng.choice(SEEDS) if rng.random() < 0.5 else rng.randint(-10 ** 12, 10 ** 12)])
+            # ('same': the stream is seeded again with the seed it has - the sequence starts over all the same)
+            ops.append(["seed", "same" if rng.random() < 0.25 else rng.choice(SEEDS) if rng.random() < 0.5 else rng.randint(-10 ** 12, 10 ** 12)])
         elif r < 0.84:
             ops.append(["reset"])
         elif r < 0.92:
@@ -98,14 +99,15 @@ def _script(streams, ops, ctx, other=None, judge=False, seed0=None):
                         ctx.viol("twin-differs", {"op": op, "a": repr(vals[0]), "twin": repr(v)})
             res.append((op, fx(vals[0])))
         elif k == "seed":
+            newseed = cur_seed[0] if op[1] == "same" else op[1]
             for s in streams:
-                s.set_seed(op[1])
-            cur_seed[0] = op[1]
+                s.set_seed(newseed)
+            cur_seed[0] = newseed
             res.append((op, None))
             if judge:
-                _fresh_check(ctx, streams[0], op[1], "set_seed")
+                _fresh_check(ctx, streams[0], newseed, "set_seed")
                 for s in streams:       # _fresh_check consumed draws from streams[0] only: re-align
-                    s.set_seed(op[1])
+                    s.set_seed(newseed)
         elif k == "reset":
             for s in streams:
                 s.reset()
